@@ -3,6 +3,7 @@
 models and prints one observation line per action.  Imports model files only.
 -/
 import DeadpoolVerif.Model.Managed
+import DeadpoolVerif.Model.Builder
 import DeadpoolVerif.Model.Unmanaged
 import DeadpoolVerif.Model.PgConfig
 import DeadpoolVerif.Model.RedisConfig
@@ -984,6 +985,41 @@ def handle (d : DState) (line : String) : DState × Option String :=
   | "rdin" :: rest => (d, some (RdDrv.run rest))
   | "rdout" :: _ => (d, none)
   | "rdx" :: _ => (d, none)
+  | "builder" :: dfl :: calls =>
+    -- `builder d=<n> <call>...`: m:<n> | T:<w>,<c>,<r> | w:<x> | c:<x> | r:<x> | q:f|l | C:<n>,<w>,<c>,<r>,<f|l>
+    let od (w : String) : Option (Option Nat) := if w == "-" then some none else w.toNat?.map some
+    let parseCall (t : String) : Option Bld.Call :=
+      match t.splitOn ":" with
+      | ["m", n] => n.toNat?.map .maxSize
+      | ["w", x] => (od x).map .wait
+      | ["c", x] => (od x).map .create
+      | ["r", x] => (od x).map .recycle
+      | ["q", "f"] => some (.queueMode false)
+      | ["q", "l"] => some (.queueMode true)
+      | ["T", ws] =>
+        match ws.splitOn "," with
+        | [w, c, r] =>
+          match od w, od c, od r with
+          | some w, some c, some r => some (.timeouts { wait := w, create := c, recycle := r })
+          | _, _, _ => none
+        | _ => none
+      | ["C", ws] =>
+        match ws.splitOn "," with
+        | [n, w, c, r, q] =>
+          match n.toNat?, od w, od c, od r with
+          | some n, some w, some c, some r =>
+            some (.config { maxSize := n, tmo := { wait := w, create := c, recycle := r }, lifo := q == "l" })
+          | _, _, _, _ => none
+        | _ => none
+      | _ => none
+    match (dfl.drop 2).toString.toNat?, calls.mapM parseCall with
+    | some dn, some cs =>
+      let b := Bld.applyAll dn cs
+      let sh (x : Option Nat) : String := match x with
+        | none => "-"
+        | some n => toString n
+      (d, some s!"builder max={b.maxSize} w={sh b.tmo.wait} c={sh b.tmo.create} r={sh b.tmo.recycle} qm={if b.lifo then "lifo" else "fifo"}")
+    | _, _ => (d, some "bad-op")
   | ["build", w, c, r, rt] =>
     match parseTmo w, parseTmo c, parseTmo r with
     | some w, some c, some r =>
